@@ -326,7 +326,7 @@ def run(ctx):
     # ---- judge inside Coq (distinct observations only)
     keys, key_idx, owner = [], {}, []
     a_terms, a_owner = [], {}
-    m_terms, m_owner = [], {}
+    m_terms, m_owner, m_index = [], {}, {}
     for ci, (c, r) in enumerate(zip(cases, results)):
         if r.get("abort"):
             errors.append(f"run aborted: {describe(c)}: {r['abort']}")
@@ -336,8 +336,11 @@ def run(ctx):
             if not r.get("terms") or len(r["terms"]) != len(c["layout"]["ptys"]):
                 errors.append(f"the driver did not report every terminal: {describe(c)}")
             else:
-                m_owner[ci] = len(m_terms)
-                m_terms.append(mcase_term(r))
+                t = mcase_term(r)  # distinct observations only
+                if t not in m_index:
+                    m_index[t] = len(m_terms)
+                    m_terms.append(t)
+                m_owner[ci] = m_index[t]
             owner.append(None)
             continue
         if c.get("async"):
